@@ -17,6 +17,13 @@ from core import AnchorMissing
 from props import _optables
 from tables import NATIVE, NUMERIC, PRIM
 
+
+def need(F, path):
+    f = F.fn(path)
+    if f is None:
+        raise AnchorMissing(path)
+    return f
+
 try:
     from props import _builtins
 except ImportError:
@@ -302,6 +309,7 @@ def run(ctx, rep_):
     fields_are_initialised(F, rep_)
     class_callable_only_from_module(F, rep_)
     loop_counter_type(F, rep_)
+    names_have_element_types(F, rep_)
     # `x[i]` on an accepted type is compiled to the access that fits the run-time kind of x (shared with C13)
     from props import C13 as _c13
     _c13.index_dispatch(F, rep_, rule="C02.index-dispatch")
@@ -663,3 +671,73 @@ def opassign_result_storable(F, rep, rule="C02.opassign-result"):
     rep.ob(rule, "a compound assignment is accepted only when the operator's result can be stored back into the target",
            "ok" if n and not bad else "violated", "%d comparison(s) of the result with the target type; unguarded Ok returns: %s" % (len(cmps), bad), cmps[0].span,
            fn=ft.path, key=rule)
+
+
+
+def names_have_element_types(F, rep, rule="C02.element-type"):
+    """The literal `[]` has the type of a list with no element type, which eq_complex lets into every `[T...]` (nothing in it can fail to
+    fit).  A value is one list however many names it has, so a NAME of that type could initialise an `[int...]` and a `[str...]` that are
+    one list: pushing through the first shows an int where the second promises a str.  The compiler therefore never gives a name that
+    type: the inference of an untyped declaration (Value::associate_with_ident), the per-name typing of an unpacking declaration
+    (Parser::assignment_unpack) and the parser of a written list type (Parser::list_type) each refuse it.  Structural parts decided:
+    the predicate looks inside lists, optionals, captured-variable wrappers and aliases; each of the three sites reaches its success only
+    on the negative edge of the test."""
+    pred = "compiler::ast::r#type::TypeLayout::has_list_without_element_type"
+    pf = F.fn(pred)
+    tl = F.adt("compiler::ast::r#type::TypeLayout")
+    names = [v["name"] for v in tl["variants"]]
+    if pf is None:
+        rep.ob(rule, "a predicate tells whether a type contains a list without an element type", "violated",
+               "no TypeLayout::has_list_without_element_type: `const e = []` / `xs: [int...] = e` / `ys: [str...] = e` / `xs.push(1)` / `s: str = ys[0]` binds an int to a str name",
+               tl.get("span", ""), fn=pred, key=rule + "|predicate")
+        return
+    covered = set()
+    for blk in pf.blocks:
+        t = blk["t"]
+        if t["k"] == "switch" and len(t["targets"]) >= 2 and t.get("dty") == "isize":
+            covered |= {names[int(v)] for v, _ in t["targets"] if int(v) < len(names)}
+    want = {"List", "Optional", "CallbackVariable", "Alias"}
+    rec = pf.calls_to(pred)
+    empt = [c for c in pf.calls() if c.callee().endswith("::is_empty")]
+    okp = want <= covered and len(rec) >= 4 and empt
+    rep.ob(rule, "the predicate looks inside lists, optionals, captured-variable wrappers and aliases, and an empty element list is a hit", "ok" if okp else "violated",
+           "variants handled %s, %d recursive calls, %d emptiness tests" % (sorted(covered), len(rec), len(empt)), pf.span, fn=pf.path, key=rule + "|predicate")
+    # (1) inferred declarations
+    av = need(F, "compiler::ast::value::Value::associate_with_ident")
+    tests = av.calls_to(pred)
+    if not tests:
+        v, info = "violated", "no test: `const e = []` names a list that fits every `[T...]`"
+    else:
+        v, info = rules.guarded_by_bool(av, rules.ok_return_blocks(av), [c.dst["l"] for c in tests], want=False)
+    rep.ob(rule, "an untyped declaration is not given a type that contains a list without element type", v, str(info) if v != "ok" else "", av.span, fn=av.path,
+           key=rule + "|inferred")
+    # (2) unpacking declarations
+    au = None
+    for g in F.crates["compiler"].fns:
+        if g.path.endswith("::assignment_unpack") and "impl compiler::parser::Parser" in g.path and "closure" not in g.path:
+            au = g
+    if au is None:
+        raise AnchorMissing("Parser::assignment_unpack")
+    links = au.calls_to("compiler::ast::ident::Ident::link_force_no_inherit")
+    rep.floor(rule + " names typed by an unpacking declaration", len(links), 1)
+    tests = au.calls_to(pred)
+    for i, c in enumerate(links):
+        if not tests:
+            v, info = "violated", "no test: `const [a, b] = [[], 1]` names a list that fits every `[T...]`"
+        else:
+            v, info = rules.guarded_by_bool(au, [c.bb], [t.dst["l"] for t in tests], want=False)
+        rep.ob(rule, "an unpacking declaration does not give a name a type that contains a list without element type", v, str(info) if v != "ok" else "", c.span,
+               fn=au.path, key=rule + "|unpack#%d" % i)
+    # (3) written types
+    lt = None
+    for g in F.crates["compiler"].fns:
+        if g.path.endswith("::list_type") and "impl compiler::parser::Parser" in g.path and "closure" not in g.path:
+            lt = g
+    if lt is None:
+        raise AnchorMissing("Parser::list_type")
+    tests = [c for c in lt.calls() if c.callee().endswith("::is_empty")]
+    if not tests:
+        v, info = "violated", "no emptiness test: the annotation `[]` spells the type that fits every `[T...]`"
+    else:
+        v, info = rules.guarded_by_bool(lt, rules.ok_return_blocks(lt), [t.dst["l"] for t in tests], want=False)
+    rep.ob(rule, "a written list type names at least one element type", v, str(info) if v != "ok" else "", lt.span, fn=lt.path, key=rule + "|written")
